@@ -80,11 +80,12 @@ def r_key(text, sep, style):
 
 
 def r_attr(attr, sep):
-    # README: `hash[full\ name=...]`; a descendant attribute `a.b` / `/a/b` is a different thing
-    # (a sub-path), so a separator INSIDE an attribute key text is escaped as in a key.
+    # README: `hash[full\ name=...]`; a descendant attribute `a.b` is a different thing (a sub-path),
+    # so a dot INSIDE an attribute key text is escaped; "/ ... does not need to be escaped because
+    # the entire search expression is contained within a [] pair".
     if attr == ".":
         return "."
-    return _esc(attr, "\\[]()'\"^$% =!<>~&*." + ("/" if sep == "/" else ""))
+    return _esc(attr, "\\[]()'\"^$% =!<>~&*.")
 
 
 def r_term(term, style):
@@ -229,6 +230,27 @@ def observe(path, unescaped_segments=None, depth=0):
     return out
 
 
+_OBS_CACHE = {}
+
+
+def obs_text(text):
+    """observe(YAMLPath(text)), memoised (parsing is deterministic); library errors are re-raised."""
+    hit = _OBS_CACHE.get(text)
+    if hit is None:
+        try:
+            hit = (True, observe(YAMLPath(text)))
+        except _LIB_ERRORS as ex:
+            ex._c08_class = _exc_class(ex)      # classify now (re-raises harness-side exceptions) ...
+            ex.__traceback__ = None             # ... and do not keep the frames alive in the cache
+            hit = (False, ex)
+        if len(_OBS_CACHE) > 100000:
+            _OBS_CACHE.clear()
+        _OBS_CACHE[text] = hit
+    if hit[0]:
+        return hit[1]
+    raise hit[1]
+
+
 def oos_class(entries, text, sep):
     """Reason why this case is outside the statement's quantifier, or None."""
     if sep == "." and text[:1] == "/":
@@ -320,13 +342,12 @@ def diff(E, O):
                 return i, "coll.inner:%s" % d[1], "coll.inner:%s" % d[2]
             if f == "params":
                 if any(isinstance(x, str) and x.startswith("<ValueError") for x in of):
-                    return i, "kw.params:ValueError", "kw.params:%s" % of[0]
+                    return i, "kw.params", "kw.params:%s" % of[0]
                 if len(ef) != len(of):
-                    return i, "kw.params:count", "kw.params:count%+d" % (len(of) - len(ef))
+                    return i, "kw.params", "kw.params:count%+d" % (len(of) - len(ef))
                 for ep, op_ in zip(ef, of):
                     if ep != op_:
-                        c, dt = text_rel(ep, op_)
-                        return i, "kw.params:%s" % c, "kw.params:%s" % dt
+                        return i, "kw.params", "kw.params:%s" % text_rel(ep, op_)[1]
             if isinstance(ef, str) and isinstance(of, str):
                 c, dt = text_rel(ef, of)
                 return i, "%s.%s:%s" % (e[0], f, c), "%s.%s:%s" % (e[0], f, dt)
@@ -346,6 +367,9 @@ def _in_package(tb):
 
 def _exc_class(ex):
     """(coarse, detail) of a library exception; re-raises exceptions that do not come from the package."""
+    done = getattr(ex, "_c08_class", None)
+    if done is not None:
+        return done
     if isinstance(ex, YAMLPathException):
         return "raises:%s" % type(ex).__name__, "raises %s: %s" % (type(ex).__name__, ex.user_message[:70])
     where = _in_package(ex.__traceback__)
@@ -373,9 +397,8 @@ def ev_parse(entries, sep, oos=None):
     text = render(entries, sep)
     E = expected(entries)
     try:
-        p = YAMLPath(text)
-        O = observe(p)
-        inferred = p.separator
+        O = obs_text(text)
+        inferred = YAMLPath(text).separator
     except _LIB_ERRORS as ex:
         k, dt = _exc_class(ex)
         return [Fail("parse", k, dt, "%s: %s" % (type(ex).__name__, ex), E)]
@@ -390,8 +413,13 @@ def ev_parse(entries, sep, oos=None):
 
 
 def ev_canon(entries, sep, oos=None):
+    """Clause (2) is about a PARSED path p: its canonical strings must re-parse to segments(p)
+    (whether segments(p) are the ones that were written is clause (1))."""
     text = render(entries, sep)
-    E = expected(entries)
+    try:
+        P0 = obs_text(text)
+    except _LIB_ERRORS:
+        return []               # clause (1)
     out = []
     for nsep in (".", "/"):
         which = "same-notation" if nsep == sep else "other-notation"
@@ -402,26 +430,26 @@ def ev_canon(entries, sep, oos=None):
             c = str(q)
         except _LIB_ERRORS as ex:
             k, dt = _exc_class(ex)
-            out.append(Fail("canon-stringify", k, "%s: %s" % (which, dt), "%s: %s" % (type(ex).__name__, ex), E))
+            out.append(Fail("canon-stringify", k, "%s: %s" % (which, dt), "%s: %s" % (type(ex).__name__, ex), P0))
             continue
         if nsep == "." and c[:1] == "/":
             if oos is not None:
                 oos.append("canonical-dot-text-first-char-slash")
             continue
         try:
-            r = YAMLPath(c)
-            O = observe(r)
-            c2 = str(r)
+            O = obs_text(c)
+            c2 = str(YAMLPath(c))
         except _LIB_ERRORS as ex:
             k, dt = _exc_class(ex)
             out.append(Fail("canon-reparse", k, "%s: %s" % (which, dt),
-                            {"canonical": c, "error": "%s: %s" % (type(ex).__name__, ex)}, E))
+                            {"canonical": c, "error": "%s: %s" % (type(ex).__name__, ex)}, P0))
             continue
-        d = diff(E, O)
+        d = diff(P0, O)
         if d:
-            out.append(Fail("canon-reparse", d[1], "%s: %s" % (which, d[2]), {"canonical": c, "segments": O}, E))
-        if c2 != c:
-            out.append(Fail("canon-fixed-point", "str-of-str-" + text_rel(c, c2)[0], "%s: %s" % (which, text_rel(c, c2)[1]),
+            out.append(Fail("canon-reparse", d[1], "%s: %s" % (which, d[2]), {"canonical": c, "segments": O}, P0))
+        elif c2 != c:
+            rel = text_rel(c, c2)
+            out.append(Fail("canon-fixed-point", "str-of-str-" + rel[0], "%s: %s" % (which, rel[1]),
                             {"canonical": c, "str(YAMLPath(canonical))": c2}, c))
     # one Fail per (clause, kind): same-notation and other-notation failures of one kind are one thing
     seen = set()
@@ -433,20 +461,22 @@ def ev_canon(entries, sep, oos=None):
     return uniq
 
 
-def _eq_pair(p_text, q_text, label, out, shape=None):
+def _eq_pair(p_text, q_text, label, out, shape=None, only_if_same=False, full=True):
     """(p == q) must be exactly (segments(p) == segments(q)) -- `escaped` segments, "the parsed YAML
-    Path used for processing YAML data"; != must be its negation; a str operand must behave like
-    the YAMLPath operand."""
+    Path used for processing YAML data"; with full=True also: != must be its negation and a str
+    operand must behave like the YAMLPath operand."""
+    try:
+        same = obs_text(p_text) == obs_text(q_text)
+    except _LIB_ERRORS:
+        return              # unparsable operand: clause (1)/(2) material, nothing to compare here
+    if only_if_same and not same:
+        return
     try:
         p = YAMLPath(p_text)
         q = YAMLPath(q_text)
-        same = observe(p) == observe(q)
-    except _LIB_ERRORS:
-        return              # unparsable operand: clause (1)/(2) material, nothing to compare here
-    try:
         got_eq = (p == q)
-        got_ne = (p != q)
-        got_eq_str = (p == q_text)
+        got_ne = (p != q) if full else (not got_eq)
+        got_eq_str = (p == q_text) if full else got_eq
     except _LIB_ERRORS as ex:
         k, dt = _exc_class(ex)
         out.append(Fail("eq", k, "%s: %s" % (label, dt), "%s: %s" % (type(ex).__name__, ex), same, shape))
@@ -477,7 +507,7 @@ def ev_eq(entries, sep, oos=None):
     except _LIB_ERRORS:
         c = None
     if c is not None and not (sep == "." and c[:1] == "/"):
-        _eq_pair(text, c, "canonical", out)
+        _eq_pair(text, c, "canonical", out, only_if_same=True, full=False)      # else: clause (2) already failed
     return out
 
 
@@ -486,12 +516,12 @@ def ev_neighbours(entries, sep, neighbours):
     text = render(entries, sep)
     osep = "/" if sep == "." else "."
     out = []
-    for how, nb in neighbours:
-        for nsep in (sep, osep):
+    for i, (how, nb) in enumerate(neighbours):
+        for nsep in ((sep, osep) if i == 0 else (sep,)):
             ntext = render(nb, nsep)
             if nsep == "." and ntext[:1] == "/":
                 continue
-            _eq_pair(text, ntext, "neighbour", out, shape=how)
+            _eq_pair(text, ntext, "neighbour", out, shape=how, full=(i == 0 and nsep == sep))
     return out
 
 
@@ -538,7 +568,21 @@ def ev_append_pop(entries, sep, oos=None):
     d = diff(Eb, after)
     shown = {"base": btext, "appended": stext, "text after pop": after_text, "segments after pop": after}
     if d:
-        out.append(Fail("pop", "not-restored:" + d[1], d[2], shown, Eb))
+        if len(after) > len(Eb) and after[:len(Eb)] == Eb:
+            # the popped segment is still there.  Is it because the appended text is not the text
+            # pop() looks for (the canonical rendering of the popped segment)?
+            prefix = "a" if sep == "." else "/a"
+            try:
+                rest = str(YAMLPath(prefix + sep + stext))[len(prefix):]
+                if rest[:1] == sep:
+                    rest = rest[1:]
+                noncanon = rest != stext
+            except _LIB_ERRORS:
+                noncanon = False
+            kind = "segment-still-present:" + ("appended-text-not-canonical" if noncanon else "appended-text-canonical")
+        else:
+            kind = "path-damaged"
+        out.append(Fail("pop", kind, d[2], shown, Eb))
     elif not still_eq:
         out.append(Fail("pop", "not-equal-to-path-before", "", shown, True))
     elif after_text != btext and oos is not None:
@@ -567,15 +611,41 @@ def well_formed(entries):
     return True
 
 
+def _plain(text):
+    return all(c.isalnum() for c in str(text)) and str(text) != ""
+
+
 def _sig_entry(entry):
+    """Shape of one entry: kind + how its texts are written; never the texts."""
     seg, style = entry
     k = seg[0]
+    st = "quoted" if style in ("sq", "dq") else style
     if k == "coll":
         return "coll%s[%s]" % (seg[1], "+".join(_sig_entry(e) for e in seg[2]))
+    if k == "key":
+        return "key" if (st == "esc" and _plain(seg[1])) else "key.%s" % st
     if k == "search":
-        return "search%s.%s" % ("=~" if seg[3] == "=~" else "", style)
-    if k in ("kw", "key"):
-        return "%s.%s" % (k, style)
+        _, inv, attr, op, term = seg
+        name = "search=~" if op == "=~" else "search"
+        if st == "pre":
+            name += ".pre"
+        parts = []
+        if attr != "." and not _plain(attr):
+            parts.append("attr.esc")
+        if op == "=~":
+            if not _plain(term):
+                parts.append("term.special")
+        elif st == "quoted":
+            parts.append("term.quoted")
+        elif not _plain(term):
+            parts.append("term.esc")
+        return name + ("(%s)" % ",".join(parts) if parts else "")
+    if k == "kw":
+        if st == "quoted" and seg[3]:
+            return "kw.quoted"
+        if any(not _plain(p) for p in seg[3]):
+            return "kw.esc"
+        return "kw" if len(seg[3]) < 2 else "kw.multi"
     return k
 
 
@@ -583,17 +653,47 @@ def shape_of(entries):
     return "+".join(_sig_entry(e) for e in entries) or "empty"
 
 
+_PLAIN_KEY = (("key", "a"), "esc")
+
+
+def _simpler(entry):
+    """Simpler variants of one entry (same kind, plainer texts), then the plain key."""
+    seg, style = entry
+    k = seg[0]
+    if k == "search":
+        _, inv, attr, op, term = seg
+        if attr not in (".", "a"):
+            yield (("search", inv, "a", op, term), style)
+        if term != "b":
+            yield (("search", inv, attr, op, "b"), "esc" if style in ("sq", "dq") else style)
+        if inv:
+            yield (("search", False, attr, op, term), "esc" if style == "pre" else style)
+    elif k == "kw":
+        if seg[3]:
+            yield (("kw", seg[1], seg[2], ()), "esc")
+            if len(seg[3]) > 1:
+                yield (("kw", seg[1], seg[2], seg[3][:1]), style)
+        if seg[1]:
+            yield (("kw", False, seg[2], seg[3]), style)
+    elif k == "coll":
+        for inner in _reductions(tuple(seg[2])):
+            if inner:
+                yield (("coll", seg[1], tuple(inner)), style)
+    if entry != _PLAIN_KEY and not (k == "coll" and seg[1] != ""):
+        yield _PLAIN_KEY
+
+
 def _reductions(entries):
+    entries = tuple(entries)
     n = len(entries)
     if n > 1:
-        yield entries[1:]
-        yield entries[:-1]
-    for i, (seg, style) in enumerate(entries):
-        if seg[0] == "coll":
-            for inner in _reductions(tuple(seg[2])):
-                yield entries[:i] + ((("coll", seg[1], tuple(inner)), style),) + entries[i + 1:]
-            if n == 1 and len(seg[2]) >= 1:
-                yield tuple(seg[2])          # the inner path on its own
+        for i in range(n):
+            yield entries[:i] + entries[i + 1:]
+    for i, e in enumerate(entries):
+        for s in _simpler(e):
+            yield entries[:i] + (s,) + entries[i + 1:]
+    if n == 1 and entries[0][0][0] == "coll":
+        yield tuple(entries[0][0][2])          # the inner path on its own
 
 
 _BLAME_CACHE = {}
@@ -620,16 +720,14 @@ def blame(evaluator, entries, sep, clause, kind):
         progress = False
         for cand in _reductions(cur):
             cand = tuple(cand)
-            if _fails_same(evaluator, cand, sep, clause, kind):
+            if cand != cur and _fails_same(evaluator, cand, sep, clause, kind):
                 cur = cand
                 progress = True
                 break
     osep = "/" if sep == "." else "."
     res = shape_of(cur)
     if not _fails_same(evaluator, cur, osep, clause, kind):
-        ot = render(cur, osep)
-        if not (osep == "." and ot[:1] == "/"):
-            res += "/%s-only" % ("dot" if sep == "." else "slash")
+        res += "/%s-only" % ("dot" if sep == "." else "slash")
     if len(_BLAME_CACHE) < 300000:
         _BLAME_CACHE[ck] = res
     return res
@@ -694,6 +792,30 @@ def compact_vocabulary():
     return v
 
 
+def core_vocabulary():
+    """80 entries for the length-3 products: all kinds, every special once in key position."""
+    v = [K("a"), K("b1"), K("1")]
+    v += [K("a%sb" % c) for c in SPECIALS]
+    v += [K(c) for c in (".", "/", " ", "'", "[", "(")]
+    v += [K("a.b", "sq"), K("a b", "dq"), K("a'b", "dq")]
+    v += [P("idx", 0), P("idx", -1), P("slice", 0, 2), P("slice", "a", "b"), P("anchor", "a")]
+    v += [S_(False, "a", op, "b") for op in OPS]
+    v += [S_(True, "a", "=", "b"), S_(True, "a", "=~", "b"), S_(True, "a", ">=", "b")]
+    v += [S_(False, ".", "=", "b"), S_(False, ".", "^", "b"), S_(False, ".", "=~", "b"), S_(True, "a", "=", "b", "pre")]
+    v += [S_(False, "a b", "=", "b"), S_(False, "a.b", "=", "b"), S_(False, "a[", "=", "b")]
+    v += [S_(False, "a", "=", t) for t in ("a b", "a'b", "a]b", "a^b", "a.b")]
+    v += [S_(False, "a", "=", "a b", "dq"), S_(False, "a", "=", 'a"b', "sq"), S_(False, "a", "=", "a^b", "dq"),
+          S_(False, "a", "=", "", "dq"), S_(False, ".", "=~", "a b"), S_(False, "a", "=~", "^a/b$")]
+    v += [P("all"), P("trav")]
+    v += [KW(False, "name", ()), KW(False, "parent", ("2",)), KW(False, "has_child", ("a",)),
+          KW(True, "has_child", ("a",)), KW(False, "max", ()), KW(False, "has_child", ("a b",), "sq"),
+          KW(False, "has_child", ("a.b",)), KW(False, "max", ("a", "b"))]
+    v += [C("", [K("a")]), C("", [K("a"), K("b1")]), C("", [S_(False, "a", "=", "b")]), C("", [K("a.b")]),
+          C("", [C("", [K("a")]), C("+", [K("b1")])]), C("+", [K("b1")]), C("-", [K("b1")]), C("&", [K("b1")])]
+    v += [K("&a"), K("a*b"), K("a\\b")]                        # out of scope, counted
+    return v
+
+
 def medium_vocabulary():
     """compact + two-special-character keys and more terms / parameters (length-2 products only)."""
     v = compact_vocabulary()
@@ -747,6 +869,8 @@ def big_single_vocabulary(tier):
 # ----------------------------------------------------------------------------------------------
 # one case
 _EVALUATORS = (ev_parse, ev_canon, ev_eq, ev_append_pop)
+# one root cause whatever the segment: pop() only removes text that equals its own rendering
+_NO_SHAPE = {"segment-still-present:appended-text-not-canonical"}
 
 
 def check_case(entries, sep, neighbours=(), coll=None):
@@ -771,10 +895,17 @@ def check_case(entries, sep, neighbours=(), coll=None):
     for ev in _EVALUATORS:
         for f in ev(entries, sep, oos):
             outcome.add((f.clause, f.kind))
+            if f.kind in _NO_SHAPE:
+                fails.append(("C08/%s/%s" % (f.clause, f.kind), f))
+                continue
             who = blame(ev, entries, sep, f.clause, f.kind)
             fails.append(("C08/%s/%s/%s" % (f.clause, f.kind, who), f))
-    nbs = [(how, nb) for how, nb in neighbours
-           if well_formed(nb) and not oos_class(nb, render(nb, sep), sep) and expected(nb) != expected(entries)]
+    nbs = []
+    if not any(k.startswith("C08/parse/") for k, _ in fails):
+        for how, nb in neighbours:
+            if (well_formed(nb) and not oos_class(nb, render(nb, sep), sep) and expected(nb) != expected(entries)
+                    and not ev_parse(nb, sep)):
+                nbs.append((how, nb))
     for f in ev_neighbours(entries, sep, nbs):
         outcome.add((f.clause, f.kind))
         fails.append(("C08/%s/%s/%s" % (f.clause, f.kind, f.shape), f))
@@ -833,7 +964,7 @@ _VOCAB = {}
 def _vocab(name, tier):
     k = (name, tier)
     if k not in _VOCAB:
-        _VOCAB[k] = {"compact": compact_vocabulary, "medium": medium_vocabulary,
+        _VOCAB[k] = {"core": core_vocabulary, "compact": compact_vocabulary, "medium": medium_vocabulary,
                      "big": lambda: big_single_vocabulary(tier)}[name]()
     return _VOCAB[k]
 
@@ -936,9 +1067,9 @@ def _work_random(chunk, tier, seed):
 
 # ----------------------------------------------------------------------------------------------
 TIERS = {
-    #            compact^<=n  medium^2  random
-    "quick":    (2, False, 3000),
-    "thorough": (3, True, 200000),
+    #            products: (vocabulary, length)                                    random
+    "quick":    ((("compact", 0), ("compact", 1), ("compact", 2)), 3000),
+    "thorough": ((("compact", 0), ("compact", 1), ("compact", 2), ("core", 3), ("medium", 2)), 150000),
 }
 
 
@@ -951,7 +1082,7 @@ def _selftest():
     pv = pathgen.vocabulary()
     mine = []
     for seg in pv:
-        if seg[0] == "glob":
+        if seg[0] == "glob" or (seg[0] == "search" and seg[3] == "=~" and "/" in seg[4]):
             continue
         mine.append(((seg[0],) + tuple(seg[1:]), "esc" if seg[0] in ("key", "search") else "-"))
     for a in mine[::7]:
@@ -959,52 +1090,45 @@ def _selftest():
             for sep in (".", "/"):
                 raw = [a[0], b[0]]
                 if pathgen.render(raw, sep) != render([a, b], sep):
-                    # quoting of terms differs by design only when the term needs quoting
                     raise AssertionError("renderers disagree: %r vs %r" % (pathgen.render(raw, sep), render([a, b], sep)))
 
 
 def run(tier="quick", seed=0, jobs=None):
     _selftest()
-    nmax, with_medium, nrand = TIERS[tier]
+    products, nrand = TIERS[tier]
     coll = harness.Collector(max_samples=8)
-    cv = len(_vocab("compact", tier))
-    mv = len(_vocab("medium", tier))
-    bv = len(_vocab("big", tier))
     sizes = {}
-    for n in range(0, nmax + 1):
-        total = cv ** n
-        sizes["compact^%d" % n] = total
-        for res in harness.pmap_chunks(_work_product, _ranges(total, 400), jobs=jobs, chunk=1,
-                                       extra=("compact", tier, n)):
+    vocab_sizes = {}
+    for vname, n in products:
+        v = len(_vocab(vname, tier))
+        vocab_sizes[vname] = v
+        total = v ** n
+        sizes["%s^%d" % (vname, n)] = total
+        for res in harness.pmap_chunks(_work_product, _ranges(total, 250), jobs=jobs, chunk=1,
+                                       extra=(vname, tier, n)):
             coll.merge(res)
-    if with_medium:
-        total = mv ** 2
-        sizes["medium^2"] = total
-        for res in harness.pmap_chunks(_work_product, _ranges(total, 2000), jobs=jobs, chunk=1,
-                                       extra=("medium", tier, 2)):
-            coll.merge(res)
+    bv = len(_vocab("big", tier))
     total = bv * 3
-    sizes["big x contexts"] = total
-    for res in harness.pmap_chunks(_work_big, _ranges(total, 300), jobs=jobs, chunk=1, extra=(tier,)):
+    sizes["big x 3 contexts"] = total
+    for res in harness.pmap_chunks(_work_big, _ranges(total, 250), jobs=jobs, chunk=1, extra=(tier,)):
         coll.merge(res)
-    per = 500
+    per = 100
     streams = [(i, min(per, nrand - i * per)) for i in range((nrand + per - 1) // per)]
     for res in harness.pmap_chunks(_work_random, streams, jobs=jobs, chunk=1, extra=(tier, seed)):
         coll.merge(res)
     bounds = {
-        "key_term_alphabet": KA, "compact_vocabulary": cv, "medium_vocabulary": mv, "big_single_vocabulary": bv,
-        "max_sequence_length_exhaustive": nmax, "sequences": sizes, "notations": ["dot", "slash"],
-        "random_sequences": nrand, "random_length": [4, 6], "seed": seed,
+        "key_term_alphabet": KA, "vocabulary_sizes": vocab_sizes, "big_single_vocabulary": bv,
+        "sequences": sizes, "max_sequence_length_exhaustive": max(n for _, n in products),
+        "notations": ["dot", "slash"], "random_sequences": nrand, "random_length": [4, 6], "seed": seed,
         "big_key_text_len": 2 if tier == "quick" else 3, "big_term_text_len": 1 if tier == "quick" else 2,
     }
-    rule = ("every well-formed sequence of <= %d entries of the %d-entry compact segment vocabulary (all kinds, all "
-            "operators/inversions, every escapable special in key/attribute/term/parameter position, escape and "
-            "demarcation styles)%s, every one of %d single segments with exhaustive short texts alone / after a key / "
-            "before a key, and %d seeded random sequences of 4..6 entries; each in dot and slash notation: "
-            "(1) parse gives the segments, (2) canonical strings re-parse to them in both notations and are fixed "
-            "points, (3) == / != agree with segment equality (other notation, canonical, str operand, 3 neighbours), "
-            "(4) append then pop restores the path"
-            % (nmax, cv, ", every pair from the %d-entry medium vocabulary" % mv if with_medium else "", bv, nrand))
+    rule = ("every well-formed sequence from the segment vocabularies (all kinds, all operators/inversions, every "
+            "escapable special in key/attribute/term/parameter position, escape and demarcation styles): %s; every one "
+            "of %d single segments with exhaustive short texts alone / after a key / before a key; %d seeded random "
+            "sequences of 4..6 entries; each in dot and slash notation: (1) parse gives the segments, (2) canonical "
+            "strings re-parse to the parsed segments in both notations and are fixed points, (3) == / != agree with "
+            "segment equality (other notation, canonical, str operand, 3 neighbours), (4) append then pop restores "
+            "the path" % (", ".join("%s(%d)^%d" % (vn, vocab_sizes[vn], n) for vn, n in products), bv, nrand))
     return coll.result(rule=rule, exhaustive=True, bounds=bounds)
 
 
